@@ -37,10 +37,15 @@ def _header_extra(hdu, rows):
     h['CDELT2'] = 0.01
 
 
+_COUNT = [0]
+
+
 def make_file(d, variant, rows):
-    """returns (path, reference full image, cube_index)"""
+    """returns (path, reference full image, cube_index); file names are unique per call so that
+    concurrent workers never share (and delete) each other's files"""
     from astropy.io import fits
-    p = os.path.join(d, "%s_%d.fits" % (variant, rows))
+    _COUNT[0] += 1
+    p = os.path.join(d, "%s_%d_%d_%d.fits" % (variant, rows, os.getpid(), _COUNT[0]))
     cube = 0
     if variant == "plain":
         ref = _image(rows)
@@ -68,7 +73,7 @@ def make_file(d, variant, rows):
         raw = _image(rows)
         hdu = fits.PrimaryHDU(raw)
         _header_extra(hdu, rows)
-        src = os.path.join(d, "src_%d.fits" % rows)
+        src = p.replace(".fits", "_src.fits")
         hdu.writeto(src, overwrite=True)
         fits_tools.compress(src, 3, outfile=p)
         ref = np.array(fits_tools.expand(p)[0].data)
@@ -145,7 +150,7 @@ def observe(args):
             rec["dcrpix2"].append(int(d) if float(d).is_integer() else -999999)
             rec["other"].append(bool(_hdr_other_equal(h, hfull)))
         out.append(rec)
-    for f in (path, os.path.join(_DIR, "src_%d.fits" % rows)):
+    for f in (path, path.replace(".fits", "_src.fits")):
         if os.path.exists(f):
             os.remove(f)
     return out
@@ -241,15 +246,15 @@ def run(ctx):
         for _ in range(40):
             jobs.append(("plain", rng.randint(121, 20000), rng.sample(allN, 8)))
     else:
-        for rows in range(1, 2001):
+        for rows in range(1, 601):
             jobs.append(("plain", rows, allN))
         for v in ("cube3", "cube4", "bscale", "bscale_i16", "compressed"):
             for rows in list(range(1, 130)) + [997, 1000]:
                 if v == "compressed" and rows < 2:
                     continue
                 jobs.append((v, rows, allN))
-        for _ in range(2500):
-            jobs.append(("plain", rng.randint(2001, 20000), rng.sample(allN, 8)))
+        for _ in range(4000):
+            jobs.append(("plain", rng.randint(601, 20000), rng.sample(allN, 8)))
     d = os.path.join(ctx.workdir, "files")
     os.makedirs(d, exist_ok=True)
     with mp.Pool(16, initializer=_init, initargs=(d,)) as pool:
@@ -264,7 +269,7 @@ def run(ctx):
     ctx.cov["rule"] = ("one trace per (file variant, rows, n): all n bands loaded with the real "
                        "load_image_band; distinct = distinct (variant, rows, n)")
     ctx.cov["exhaustive"] = True
-    ctx.cov["domain"] = {"plain_rows_exhaustive": "1..%d" % (100 if quick else 2000),
+    ctx.cov["domain"] = {"plain_rows_exhaustive": "1..%d" % (100 if quick else 600),
                          "bands": "1..64", "variants": ["plain", "cube3", "cube4", "bscale", "bscale_i16", "compressed"]}
     ctx.sample(recs[200] if len(recs) > 200 else recs[0])
     ctx.sample(recs[-1])
